@@ -162,7 +162,9 @@ def cases(draw, tier, mode, wide=False):
                      'uniform': draw(st.sampled_from([None, None, 's', 'ms', 'us', 'ns'])),
                      # None: one requirement; dup: the same requirement text written twice (two assertions); reparse: parse() twice
                      'layout': draw(st.sampled_from([None, None, None, 'dup', 'reparse'])),
-                     'bare_period': draw(st.booleans())})
+                     'bare_period': draw(st.booleans()),
+                     # the period value is handed over as an int / float, or as an exact number: decimal.Decimal, fractions.Fraction
+                     'period_as': draw(st.sampled_from([None, None, None, 'decimal', 'fraction']))})
     n = draw(F.trace_lengths(10))
     if mode == 'pastified':
         h = F.horizon(f) or 0
@@ -189,6 +191,10 @@ def run_mode(mode, text, vs, tr, cfg, period_ns):
     if cfg.get('bare_period') and cfg['period'][1] == 's':
         # set_sampling_period(2): the unit argument is left to its documented default (seconds), whatever the default unit of bounds
         kw['period'] = (cfg['period'][0],)
+    if cfg.get('period_as'):
+        from decimal import Decimal
+        v = cfg['period'][0]
+        kw['period'] = ((Decimal(str(v)) if cfg['period_as'] == 'decimal' else Fraction(str(v))),) + tuple(kw['period'][1:])
     if cfg.get('layout') == 'reparse':
         kw['parse'] = 2
     tcol = time_column(n, period_ns, cfg['unit'])
